@@ -197,7 +197,7 @@ class AliasSampler(Lemma):
 
 class InversionSampler(Lemma):
     """InversionMethod.sample_with_u (real body; the pairing enumeration of K states and the state probabilities abstract):
-    the x-th state of the enumeration is returned exactly for u in (C_{x-1}, C_x] (x >= 1; [0, C_0] for the first), and a
+    the x-th state of the enumeration is returned for u inside (C_{x-1}, C_x) and nowhere outside [C_{x-1}, C_x] (either end-point convention), and a
     second uniform is answered exactly as a fresh sampler answers it, whatever was drawn before (cached cumulative sums)."""
     prop = "C02"
     cases = CASES
@@ -224,9 +224,9 @@ class InversionSampler(Lemma):
         r1 = vc.method(smp, "sample_with_u", u1)
         vc.check(nm + "::never-a-state-of-probability-zero", And(*[Not(r1 == ("state", z)) if is_sym(r1 == ("state", z)) else (r1 != ("state", z)) for z in zeros]) if zeros else True)
         for k, lo, hi in cum(ps, range(K)):
-            inside = And(lo < u1, u1 <= hi) if k else (u1 <= hi)
+            # whichever end point convention the sampler uses: returned only on the closed interval, always on the open one
             got = (r1 == ("state", k)) if r1 is not None else False
-            vc.check(nm + f"::state{k}-exactly-on-an-interval-of-length-p{k}", (got == inside) if is_sym(inside) else (bool(got) == bool(inside)))
+            vc.check(nm + f"::state{k}-exactly-on-an-interval-of-length-p{k}", And(Implies(got, And(lo <= u1, u1 <= hi)), Implies(And(lo < u1, u1 < hi), got)))
         vc.check(nm + "::never-outside-the-enumeration", r1 is not None)
         r2 = vc.method(smp, "sample_with_u", u2)
         fresh = self._sampler(vc, ps)
@@ -259,7 +259,7 @@ class InversionSampler(Lemma):
 class InversionOverTheStatesManager(Lemma):
     """InversionMethod.sample_with_u TOGETHER WITH StatesManager.project_index_to_state_increment (both real bodies; only the
     admissibility test and the pairing abstract): pairing indices 0..M-1 of which a given subset is outside the grid, the
-    store of cumulative sums capped at `cap` entries.  The admissible index r is returned exactly for u in (C_{k-1}, C_k]
+    store of cumulative sums capped at `cap` entries.  The admissible index r is returned exactly for u in [C_{k-1}, C_k)
     (cumulative sums over the admissible indices in increasing order), also after the store is full, and a second uniform
     is answered as a fresh sampler answers it -- the index projection is stateful (it restarts behind the last stored
     state), so both draws go through the real restart logic."""
@@ -299,9 +299,8 @@ class InversionOverTheStatesManager(Lemma):
         r2 = vc.method(smp, "sample_with_u", u2)
         for which, u, res in (("first", u1, r1), ("second", u2, r2)):
             for k, lo, hi in cum(ps, adm):
-                inside = And(lo < u, u <= hi) if k != adm[0] else (u <= hi)
                 got = (res == ("state", k)) if res is not None else False
-                vc.check(nm + f"::{which}-draw:index{k}-exactly-on-an-interval-of-length-p{k}", (got == inside) if is_sym(inside) else (bool(got) == bool(inside)))
+                vc.check(nm + f"::{which}-draw:index{k}-exactly-on-an-interval-of-length-p{k}", And(Implies(got, And(lo <= u, u <= hi)), Implies(And(lo < u, u < hi), got)))
         fresh = self._sampler(vc, mask, cap, ps)
         r2f = vc.method(fresh, "sample_with_u", u2)
         vc.check(nm + "::second-draw-independent-of-the-first", r2 == r2f)
@@ -332,7 +331,7 @@ class InversionOverTheStatesManager(Lemma):
         edges = np.cumsum([p[r] for r in adm])
 
         def want(u):
-            return adm[min(int(np.searchsorted(edges, u, side="left")), len(adm) - 1)]
+            return adm[min(int(np.searchsorted(edges, u, side="right")), len(adm) - 1)]
         us = [val("u1", 0.999), val("u2", 0.9995)] + [float(x) for x in (np.arange(200) + 0.5) / 200]
         s = make()
         for i, u in enumerate(us):
